@@ -436,6 +436,8 @@ pub enum Shape {
     /// messages that hold handles to channels stay queued - one of them in the very channel it
     /// refers to, two queues referring to each other - when the program ends or is dropped
     QueuedCycle,
+    /// one message carries a channel handle and the same object twice
+    AliasedRequest,
 }
 
 pub const DETERMINATE: &[Shape] = &[
@@ -444,6 +446,7 @@ pub const DETERMINATE: &[Shape] = &[
     Shape::RequestResponse,
     Shape::Independence,
     Shape::ChannelInMessage,
+    Shape::AliasedRequest,
 ];
 
 pub const ALL: &[Shape] = &[
@@ -457,11 +460,16 @@ pub const ALL: &[Shape] = &[
     Shape::CompetingReaders,
     Shape::ChannelInMessage,
     Shape::QueuedCycle,
+    Shape::AliasedRequest,
 ];
 
 pub fn generate(rng: &mut Rng, shapes: &[Shape], print_from_main: bool) -> Workload {
     let shape = *rng.pick(shapes);
-    let kind = *rng.pick(KINDS);
+    let mut kind = *rng.pick(KINDS);
+    if shape == Shape::AliasedRequest && kind == Kind::BigArr {
+        // three large arrays rendered per request would dominate the run
+        kind = Kind::Arr;
+    }
     let ty = kind.ty();
     let m = if kind == Kind::BigArr { rng.range(1, 3) as i64 } else { rng.range(2, 6) as i64 };
     let mut src = String::from(COMMON);
@@ -688,11 +696,57 @@ pub fn generate(rng: &mut Rng, shapes: &[Shape], print_from_main: bool) -> Workl
                 obs.push((i, format!("{}/{}", v.touch(4).show(), v.show())));
             }
         }
+        Shape::AliasedRequest => {
+            // field order is drawn per program: the handle may come before, between or after the
+            // values, and the first and third value are one and the same object
+            let mut fields = vec!["reply", "va", "vb", "vc"];
+            rng.shuffle(&mut fields);
+            src.push_str("type Rich = {\n");
+            for f in &fields {
+                if *f == "reply" {
+                    src.push_str("    reply: channel<string>\n");
+                } else {
+                    src.push_str(&format!("    {f}: {ty}\n"));
+                }
+            }
+            src.push_str("}\n\n");
+            src.push_str("fn serve(reqs: channel<Rich>, n: int) {\n    for i in n {\n        let r = reqs.read()\n");
+            src.push_str(&maybe_pause(rng, "        "));
+            src.push_str("        r.reply.write(show(r.va) .. \"/\" .. show(r.vb) .. \"/\" .. show(r.vc))\n");
+            src.push_str(&maybe_work(rng, "        "));
+            src.push_str("    }\n}\n\n");
+            src.push_str("let reqs: channel<Rich> = channel()\n");
+            src.push_str(&format!("task {{\n    serve(reqs, {m})\n}}\n"));
+            let args: Vec<&str> = fields
+                .iter()
+                .map(|f| match *f {
+                    "reply" => "mine",
+                    "vb" => "y",
+                    _ => "x",
+                })
+                .collect();
+            src.push_str(&format!(
+                "for i in {m} {{\n    let mine: channel<string> = channel()\n    let x = mk(0, i)\n    let y = mk(0, i + 50)\n    reqs.write(Rich({}))\n",
+                args.join(", ")
+            ));
+            src.push_str(&maybe_pause(rng, "    "));
+            src.push_str(&format!("    {}}}\n", say(0, "mine.read()").replace("obs(0,", "obs(i,").replace("[0]", "[\" .. i .. \"]")));
+            for i in 0..m {
+                let (x, y) = (kind.mk(0, i), kind.mk(0, i + 50));
+                obs.push((i, format!("{}/{}/{}", x.show(), y.show(), x.show())));
+            }
+        }
         Shape::QueuedCycle => {
             src.push_str(&format!("type Link = {{\n    val: {ty}\n    next: channel<Link>\n}}\n\n"));
             src.push_str("fn relay(inp: channel<Link>, n: int) {\n    for i in n {\n        let l = inp.read()\n        l.next.write(Link(touch(l.val, 2), inp))\n    }\n}\n\n");
+            src.push_str("fn build_cycle(carrier: channel<Link>) {\n    let p: channel<Link> = channel()\n    let q: channel<Link> = channel()\n    p.write(Link(mk(1, 1), q))\n    q.write(Link(mk(1, 2), p))\n    carrier.write(Link(mk(1, 3), p))\n}\n\n");
             src.push_str("let c: channel<Link> = channel()\nlet d: channel<Link> = channel()\n");
             src.push_str("task {\n    relay(d, 1)\n}\n");
+            if rng.chance(2, 3) {
+                // a task builds two queues referring to each other, hands the only way in to a
+                // carrier channel and finishes; nobody ever reads the carrier
+                src.push_str("let carrier: channel<Link> = channel()\ntask {\n    build_cycle(carrier)\n}\n");
+            }
             src.push_str("c.write(Link(mk(0, 1), c))\n");
             src.push_str("c.write(Link(mk(0, 2), d))\n");
             src.push_str("d.write(Link(mk(0, 3), c))\n");
